@@ -353,7 +353,7 @@ class Engine:
         if parts is not None and len(parts) == 1 and parts[0] not in st.funcs and not prog:
             import re as _re
 
-            if _re.fullmatch(r"(perm|shuffle|where_rank|sort)\d+(_inv)?", parts[0]):
+            if _re.fullmatch(r"(perm|shuffle|where_rank|sort|msel_src)\d+(_inv)?", parts[0]):
                 # ghost function of an external that was not called on this path: unconstrained symbol
                 fv.counter += 1
                 st.funcs = dict(st.funcs)
@@ -622,6 +622,9 @@ class Engine:
         # havoc what the callee may modify
         for m in cd.modifies:
             v = bound.get(m)
+            for am in arrays_of(v):
+                if am.loc in fv.view_copies:
+                    raise VerifError("a slice view is passed to %s in a position it may modify (views are read-only copies)" % cd.qualname)
             if isinstance(v, SArr):
                 fv.havoc_array(st, v)
             elif isinstance(v, STuple):
